@@ -1,6 +1,7 @@
 import EaselModel.Stats.HistRat
 import EaselModel.Stats.HistQuery
 import EaselModel.Stats.HistCens
+import EaselModel.Stats.HistMass
 import EaselModel.Stats.FitReal
 import EaselModel.Stats.GumbelConcave
 /-! # C11 — property theorems (statements + glue only; lemmas live in `EaselModel/Stats/*`)
@@ -94,14 +95,23 @@ theorem tailmass_query_agrees (h : Hist ℚ) (vs : List ℚ) (acc : Accounts h v
 
 /-- `esl_histogram_SetTail(phi)` (after commits fd84f7f, 2487976, 9b72a6e): the threshold actually used is the bin boundary
     `bmin + k·w ∈ (phi - w, phi]`, `cmin = max(k,0)`, and the censoring agrees with the raw data: `z` = number of accepted values
-    `≤` that threshold, `No = n - z`, `Nc = n`; no read outside the bins. (`SetTailByMass` is covered by the differential run and
-    the monitor only.) -/
+    `≤` that threshold, `No = n - z`, `Nc = n`; no read outside the bins. -/
 theorem settail_agrees_with_raw_data (h : Hist ℚ) (vs : List ℚ) (acc : Accounts h vs) (phi : ℚ) (hfin : |phi| ≤ dblMaxQ)
     (hr : -2147483648 ≤ ⌈(phi - h.bmin) / h.w - 1⌉ ∧ ⌈(phi - h.bmin) / h.w - 1⌉ < 2147483647) :
     ∃ h' mass k, h.setTail phi = .val (.ok, h', mass) ∧ h'.phi = h.bmin + (k : Int) * h.w ∧ h'.phi ≤ phi ∧ phi - h'.phi < h.w ∧
       h'.cmin = max k 0 ∧ h'.z = vs.countP (fun x => decide (x ≤ h'.phi)) ∧ h'.no = vs.length - h'.z ∧ h'.nc = vs.length ∧
       h'.obs = h.obs ∧ h'.isDone = true ∧ h'.datasetIs = .virtualCensored :=
   setTail_spec h vs acc phi hfin hr
+
+/-- `esl_histogram_SetTailByMass(pmass)`, `0 < pmass ≤ 1`, non-empty data: the cutoff is the lower bound of a bin `b ∈ imin..imax`;
+    `No` = number of accepted values above it, `≥ pmass·n`; `z = n - No` = number of accepted values `≤` it; and `b` is the highest
+    satisfactory bin (the values above bin `b` alone fall short of the requested mass). -/
+theorem settailbymass_agrees_with_raw_data (h : Hist ℚ) (vs : List ℚ) (acc : Accounts h vs) (hne : vs ≠ []) (p : ℚ) (hp0 : 0 < p) (hp1 : p ≤ 1) :
+    ∃ h' mass b, h.setTailByMass p = .val (.ok, h', mass) ∧ h.imin ≤ b ∧ b ≤ h.imax ∧ h'.cmin = b ∧ h'.phi = h.bmin + (b : ℚ) * h.w ∧
+      h'.no = vs.countP (fun x => decide (h'.phi < x)) ∧ h'.z = vs.countP (fun x => decide (x ≤ h'.phi)) ∧
+      p * vs.length ≤ h'.no ∧ (vs.countP (fun x => decide (h.bmin + ((b : ℚ) + 1) * h.w < x)) : ℚ) < p * vs.length ∧
+      h'.nc = vs.length ∧ h'.obs = h.obs ∧ h'.isDone = true :=
+  setTailByMass_spec h vs acc hne p hp0 hp1
 
 /-- `esl_histogram_DeclareCensoring(z, phi)`: eslEINVAL iff `phi` exceeds some observed value; else `Nc = n + z`, `No = n`. -/
 theorem declare_censoring_agrees (h : Hist ℚ) (vs : List ℚ) (acc : Accounts h vs) (hne : vs ≠ []) (z : Int) (hz : 0 ≤ z) (phi : ℚ) :
